@@ -470,9 +470,12 @@ impl GrlReteLoader {
     fn extract_deps_from_node(node: &ReteUlNode, deps: &mut Vec<String>) {
         match node {
             ReteUlNode::UlAlpha(alpha) => {
-                // Extract fact type from field (e.g., "Person.age" -> "Person")
-                if let Some(dot_pos) = alpha.field.find('.') {
-                    let fact_type = alpha.field[..dot_pos].to_string();
+                // Extract fact type from field (e.g., "Person.age" -> "Person").
+                // An arithmetic condition is carried as "test(Person.age % 3 == 0)": the
+                // fact type is that of the first field inside the test, not "test(Person"
+                let field = alpha.field.strip_prefix("test(").unwrap_or(&alpha.field);
+                if let Some(dot_pos) = field.find('.') {
+                    let fact_type = field[..dot_pos].to_string();
                     deps.push(fact_type);
                 }
             }
